@@ -228,16 +228,28 @@ def _queue_drain_exits(rep, F, P):
             continue
         flow = P.flow(b)
         srcs = [(bi, t) for bi, t in flow.calls() if (callee_key(t["f"]) or "") in QUEUE_INTO_ITER]
-        if not srcs:
+        # `while let Some(x) = queue.pop()` over a queue this function owns (a local, not a shared reference: the producers have finished)
+        pops = []
+        for bi, t in flow.calls():
+            if (callee_key(t["f"]) or "") in ("crossbeam_queue::SegQueue::pop", "crossbeam_queue::ArrayQueue::pop") and t["args"]:
+                _fields, roots = place_chain(flow, t["args"][0])
+                owned = roots and all(r > b.d["argc"] and not b.locals[r].lstrip().startswith("&") for r in roots)
+                if owned:
+                    pops.append((bi, t))
+        if not srcs and not pops:
             continue
         cfg = P.cfg(b)
-        for sbi, st in srcs:
-            it_local = st["dest"][0]
+        for sbi, st in srcs + pops:
             # loop heads: `next` calls whose receiver derives from this iterator
             heads = []
+            if (sbi, st) in pops:
+                if st.get("to") is not None and sbi in cfg.reachable_from(st["to"]):
+                    heads.append((sbi, st))
+                else:
+                    continue
             for bi, t in flow.calls():
                 ck = callee_key(t["f"]) or ""
-                if ck.endswith("::next") and t["args"]:
+                if (sbi, st) in srcs and ck.endswith("::next") and t["args"]:
                     o = flow.origins(t["args"][0])
                     if any(x[0] == "call" and x[2] == sbi for x in o):
                         heads.append((bi, t))
